@@ -478,6 +478,21 @@ def run(rep, tier, rng, replay=None):
         if not (a == b == m):
             rep.violation("correspondence-c13", "model/implementation differ on %s" % line[:100], replay, no_input=True)
         return
+    # extraction cross-check: results proved by vm_compute inside Coq (Proofs/NormalizeRange.v: ex_0_255, ex_full_range,
+    # ex_subnormal, mixed_channel_uses_type_range, ex_scaled_negative, ex_float_layer) against the extracted OCaml
+    xc = [("NORM 0 - d0000000000000000 d406fe00000000000 4060000000000000", "ok:3f008081"),
+          ("NORM 0 - dffefffffffffffff d7fefffffffffffff 0000000000000000 7fefffffffffffff ffefffffffffffff", "ok:3f000000 ok:3f800000 ok:00000000"),
+          ("NORM 0 - d0000000000000000 d0000000000000003 0000000000000001 0000000000000003", "ok:3eaaaaab ok:3f800000"),
+          ("NORM 0 I/0/255 i0 d3ff0000000000000 3ff0000000000000", "ok:3b808081"),
+          ("NORM 0 S/-100/100/bfe0000000000000/4008000000000000 s0 s10 4008000000000000 c000000000000000", "ok:3f800000 ok:00000000"),
+          ("ARITH add 3fb999999999999a 3fc999999999999a", "3fd3333333333334"),
+          ("F2S 3fd5555555555555", "3eaaaaab"), ("I2D 9007199254740993", "4340000000000000"),
+          ("ARITH clamp 3ff0000000000000 7ff8000000000000 3ff0000000000000", "P")]
+    got = core.run_cases(core.DRIVER, [c for c, _ in xc], shards=1)
+    for (c, want), g in zip(xc, got):
+        if g != want:
+            rep.violation("correspondence-c13", "the extracted model disagrees with the result computed inside Coq by vm_compute on %s: %s instead of %s" % (c, g, want),
+                          dict(kind="extraction", failing="OCaml extraction of Base/Floats.v, Model/Normalize.v vs vm_compute", case=c), no_input=True)
     cases = gen_cases(rng, tier)
     lines = [c.line() for c in cases]
     oa = core.run_cases(dbg, lines)
